@@ -12,11 +12,17 @@ RULE = ('Poisson stream: h = k/4 (k in 1..40), p = k/4 (1..200), K = k/4 (1..400
         '(call sequences in one process; 15 earlier calls are repeated at the end and must return bit-identical results); exact-tie stream (lambda = 1, K chosen so that c(1) = c(2) exactly in binary64); malformed '
         'stream (non-positive costs, negative mean / lead time, Q <= 0, non-integer r or Q, zero lead-time demand). '
         'Normal stream: h, p, K floats, mean 50..2000, cv 0.05..0.4, lead time in {1/12, 1/4, 1/2, 1, 2}: r_q_cost at random (r,Q), '
-        'r_q_optimal_r_for_q, the four approximations (8% with p << h and large K, where the EIL equations have no solution; 27% with p/h in [1.2, 3] and K in 20..500, reorder point below mean lead-time demand; 30% siblings of the previous call; 30% with h, p, K scaled by 1e-2..1e-5 (small unit costs, flat g)); every normal case additionally calls r_q_optimal_r_for_q with a CALLER-SUPPLIED tol in 1e-2..1e-12 (raised to 1000 x the binary64 resolution of g(r)-g(r+Q) when below it) at Q = 0.3..2 EOQ and checks |g(r)-g(r+Q)| <= tol with that tol (and the bit-for-bit transcription of the bisection), r_q_eil_approximation with tol in {1e-3,1e-4,1e-5,1e-8,1e-9} and r_q_loss_function_approximation with tol in {1e-3,1e-4,1e-5}. non-trivial (Poisson) = the returned window was extended at least once to '
+        'r_q_optimal_r_for_q, the four approximations (8% with p << h and large K, where the EIL equations have no solution; 27% with p/h in [1.2, 3] and K in 20..500, reorder point below mean lead-time demand; 30% siblings of the previous call; 30% with h, p, K scaled by 1e-2..1e-5 (small unit costs, flat g)); every normal case additionally calls r_q_optimal_r_for_q with a CALLER-SUPPLIED tol in 1e-2..1e-12 (raised to 1000 x the binary64 resolution of g(r)-g(r+Q) when below it) at Q = 0.3..2 EOQ and checks |g(r)-g(r+Q)| <= tol with that tol (and the bit-for-bit transcription of the bisection), r_q_eil_approximation with tol in {1e-3,1e-4,1e-5,1e-8,1e-9} and r_q_loss_function_approximation with tol in {1e-3,1e-4,1e-5}. '
+        'EIL solvability-boundary stream (16 quick / 400 thorough normal cases, all normal-stream oracles): h, lambda, cv, L as above, p/h log-uniform in 0.3..20, K placed at a relative distance '
+        '10^-3..0.5 (log-uniform) below the largest fixed cost K* = max_Q [h Q^2/(2 lambda) - p n(r(Q))] for which (5.17), (5.18) have a solution (two solutions close together, slow iteration) '
+        'or (25%) above it (no solution). A (nan, nan, nan) result of r_q_eil_approximation (any stream, default or caller tol) is a failing input whenever an own run of the documented '
+        'Algorithm 5.1 from Q = EOQ (statistics.NormalDist / math.erfc) converges to a point where the fixed-point map changes sign with a margin, i.e. the defining equations have a solution; '
+        'nan is tolerated only where that run leaves the domain Q h/(p lambda) < 1. non-trivial (Poisson) = the returned window was extended at least once to '
         'each side of S; distinct = distinct parameter tuples.')
 
 BIG = Fraction(10) ** 30
-EIL_NAN_IS_FAILURE = False      # r_q_eil_approximation returns (nan, nan, nan) when Q h/(p lambda) >= 1 (no solution); recorded, reported to the lead
+EIL_NAN_IS_FAILURE = False      # r_q_eil_approximation returns (nan, nan, nan) when Q h/(p lambda) >= 1 (no solution); recorded, reported to the lead;
+                                # nan where eil_reference() finds a solution of the defining equations IS a failing input (oracle_normal)
 
 
 # ------------------------------------------------------------------------------------------------
@@ -398,6 +404,65 @@ def gen_tolreq(rng):
                 tol_fp=10.0 ** -rng.choice([3, 4, 5, 8, 9]))
 
 
+def eil_psi(Q, h, p, lam, sigma):
+    """psi(Q) = h Q^2 / (2 lam) - p n(r(Q)) with r(Q) = F^{-1}(1 - Q h / (p lam)) (eq. 5.17): the EIL equations (5.17), (5.18) hold at
+    (r(Q), Q) iff psi(Q) = K, and sqrt(2 lam [K + p n(r(Q))] / h) > Q iff psi(Q) < K.  Own computation (statistics.NormalDist, math.erfc)."""
+    z = -statistics.NormalDist().inv_cdf(Q * h / (p * lam))
+    return h * Q * Q / (2 * lam) - p * sigma * L1(z)
+
+
+def eil_Kstar(h, p, lam, sigma, N=400):
+    """largest fixed cost for which the EIL equations have a solution: max of psi over 0 < Q < p lam / h (grid + golden section);
+    <= 0 when the lead-time-demand density never exceeds h / (p lam) (no solution for any K > 0)"""
+    Qm = p * lam / h
+    i = max(range(1, N), key=lambda i: eil_psi(Qm * i / N, h, p, lam, sigma))
+    a, b = Qm * max(i - 1, 1e-3) / N, Qm * min(i + 1, N - 1e-3) / N
+    g = (math.sqrt(5) - 1) / 2
+    for _ in range(80):
+        c, d = b - g * (b - a), a + g * (b - a)
+        if eil_psi(c, h, p, lam, sigma) > eil_psi(d, h, p, lam, sigma): b = d
+        else: a = c
+    return eil_psi((a + b) / 2, h, p, lam, sigma)
+
+
+def eil_reference(h, p, K, lam, mu, sigma, maxit=200000):
+    """own run of the documented Algorithm 5.1 (start at Q = EOQ, alternate (5.17) and (5.18)); returns (r, Q) when it converges to a point
+    at which Q -> sqrt(2 lam [K + p n(r(Q))]/h) - Q changes sign from + to - with a margin (a solution of the defining equations that the
+    documented algorithm reaches: started at the EOQ, which lies below every solution, the iterates increase to the smallest one), else None
+    (Q h / (p lam) reaches 1: the equations have no solution, or only a numerically marginal one)"""
+    nd = statistics.NormalDist()
+    def step(Q):
+        q = Q * h / (p * lam)
+        if not 0 < q < 1: return None
+        return math.sqrt(2 * lam * (K + p * sigma * L1(-nd.inv_cdf(q))) / h)
+    Q = math.sqrt(2 * K * lam / h)
+    for _ in range(maxit):
+        Qn = step(Q)
+        if Qn is None: return None
+        if abs(Qn - Q) <= 1e-11 * Q: break
+        Q = Qn
+    else: return None
+    lo, hi = step(Q * (1 - 1e-4)), step(Q * (1 + 1e-4))
+    if lo is None or hi is None or not (lo - Q * (1 - 1e-4) > 1e-9 * Q and hi - Q * (1 + 1e-4) < -1e-9 * Q): return None
+    return mu - sigma * nd.inv_cdf(Q * h / (p * lam)), Q
+
+
+def gen_eil_boundary(rng):
+    """boundary of the domain on which the EIL equations are solvable: for given h, p, lambda, tau, L they have a solution iff
+    K <= K* = max_Q psi(Q); K is placed at a log-uniform relative distance 10^-3 .. 0.5 below K* (two solutions close to each other,
+    slowly converging iteration) or (25%) above it (no solution); p/h log-uniform in 0.3..20"""
+    for _ in range(50):
+        h = round(rng.uniform(0.05, 5), 3); p = round(h * math.exp(rng.uniform(math.log(0.3), math.log(20))), 3)
+        lam = rng.randint(50, 2000); sd = round(lam * rng.uniform(0.05, 0.4), 2); L = rng.choice([1 / 12, 0.25, 0.5, 1, 2])
+        ks = eil_Kstar(h, p, lam, sd * math.sqrt(L))
+        side = 'above' if rng.random() < 0.25 else 'below'
+        d = 10.0 ** -rng.uniform(0.3, 3)
+        if ks > 1e-6: break
+    else: return dict(kind='normal', h=h, p=p, K=round(rng.uniform(1, 200), 2), lam=lam, sd=sd, L=L, eil_boundary='never-solvable', tolreq=gen_tolreq(rng))
+    K = ks * (1 - d) if side == 'below' else ks * (1 + d)
+    return dict(kind='normal', h=h, p=p, K=K, lam=lam, sd=sd, L=L, eil_boundary=side, eil_Kstar=ks, tolreq=gen_tolreq(rng))
+
+
 BISECT_ITER = [0]
 
 
@@ -509,6 +574,7 @@ def oracle_normal(chk, c):
     # default tolerance, then (new) a caller-supplied one: tighter or looser for EIL, looser only for the loss-function iteration
     # (its inner fsolve has a relative x-tolerance of 1.49e-8, so a tighter outer tolerance is not meaningful there)
     tfp = tr['tol_fp'] if tr else None
+    eil_ref = None
     for tl in [None] + ([tfp] if tfp else []):
         if tl is None: v = call('r_q_eil_approximation', rq.r_q_eil_approximation, *args); who = 'r_q_eil_approximation'; tl = tol
         else: v = call('r_q_eil_approximation', lambda *a: rq.r_q_eil_approximation(*a, tol=tl), *args); who = 'r_q_eil_approximation(tol)'
@@ -517,6 +583,13 @@ def oracle_normal(chk, c):
             if math.isnan(r) or math.isnan(Q):
                 chk.extra['eil_nan_outputs'] = chk.extra.get('eil_nan_outputs', 0) + 1
                 if EIL_NAN_IS_FAILURE: chk.fail('r_q_eil_approximation|nan', 'returns nan', cc)
+                # (nan, nan, nan) is not a solution of (5.16)-(5.18): it is tolerated only where the equations have none.  Independent
+                # existence test: own run of the documented Algorithm 5.1 from Q = EOQ reaches a sign change of the fixed-point map
+                if eil_ref is None: eil_ref = [eil_reference(h, p, K, lam, mu, sigma)]
+                if eil_ref[0] is not None:
+                    chk.fail('%s|nan-although-equations-solvable' % who, 'returns (%r, %r, %r), but the defining equations (5.17), (5.18) are solved by r=%.10g, Q=%.10g '
+                             '(reached by Algorithm 5.1 started at the EOQ; own computation)' % (r, Q, cst, eil_ref[0][0], eil_ref[0][1]), cc)
+                else: chk.count('eil_nan_and_no_solution_found_independently')
             else:
                 n = og.n(r)
                 if who == 'r_q_eil_approximation': chk.count('eil_r<mu' if r < mu else 'eil_r>=mu')
@@ -563,13 +636,22 @@ def explore_normal(chk, n):
         chk.case(c, False)
 
 
+def explore_eil_boundary(chk, n):
+    for _ in range(n):
+        c = gen_eil_boundary(chk.rng)
+        chk.count('kind=normal'); chk.count('eil_boundary=%s' % c['eil_boundary'])
+        oracle_normal(chk, c)
+        chk.case(c, False)
+
+
 # ------------------------------------------------------------------------------------------------
 def run(chk):
     chk.rule = RULE
     chk.trusted += ['model Alg/RQ.v is hand-written; r_q_cost_poisson and r_q_poisson_exact are tied to /repo by running the model on the '
                     "implementation's own g and cdf values (exact rationals) and comparing (r, Q) and costs (1e-9; exact on the tie stream); "
                     'the bisection is tied by a binary64 transcription of the model loop compared bit-for-bit; the fixed-point loops of the '
-                    'approximations are tied by reading only, their outputs are checked against their defining equations by the oracle',
+                    'approximations are tied by reading only, their outputs are checked against their defining equations by the oracle '
+                    '(a nan output of the EIL iteration against an own run of Algorithm 5.1 that decides whether the equations have a solution)',
                     'oracle hypotheses of C14_poisson_exact_optimal (difference identity of newsvendor_poisson_cost, monotone poisson.cdf) are '
                     'checked numerically on every generated instance, not proved about scipy',
                     'own re-computations used by the oracle: Poisson pmf via exp/lgamma, normal loss functions via math.erfc, closed-form integral '
@@ -579,11 +661,12 @@ def run(chk):
                    'library functions (poisson pmf/cdf, norm ppf/cdf/pdf, sqrt, fsolve, quad) are inputs/Section variables of the model with the '
                    'stated hypotheses (sqrt x * sqrt x = x, residual bound of the root finder, mean-value bounds of the integral)']
     chk.proof()
-    if chk.tier == 'quick': n, ntie, nmal, nnorm = 120, 8, 30, 80
-    else: n, ntie, nmal, nnorm = 1500, 60, 200, 1200
+    if chk.tier == 'quick': n, ntie, nmal, nnorm, nbnd = 120, 8, 30, 80, 16
+    else: n, ntie, nmal, nnorm, nbnd = 1500, 60, 200, 1200, 400
     explore_poisson(chk, n, ntie)
     explore_malformed(chk, nmal)
     explore_normal(chk, nnorm)
+    explore_eil_boundary(chk, nbnd)
     if (chk.broken or chk.mismatches) and not chk.fails:
         explore_poisson(chk, 6 * n if chk.tier == 'quick' else n, 0, do_model=False)
         if not chk.fails: explore_normal(chk, 4 * nnorm if chk.tier == 'quick' else nnorm)
